@@ -240,7 +240,9 @@ fn scan_cases(rng: &mut Rng, tier: &str, f: &mut dyn FnMut(&ScanCase) -> bool) {
         let l = 300 + rng.below(3001);
         let s = dna_seq(rng, l, rep % 5 == 4);
         let cells = rand_cells(rng, m, rep % 5 != 4);
-        let thr = match rep % 3 { 0 => -1000.0, 1 => f32::NEG_INFINITY, _ => -(rng.below(40) as f32) };
+        // every fourth case: a threshold BIT-EQUAL to the best exact score (or to the score of a random position): `>=` versus `>`
+        let thr = if rep % 4 == 3 { let best = (0..=l - m).map(|i| naive_score(&cells, &s, i)).fold(f32::NEG_INFINITY, f32::max); if rep % 8 == 3 && best.is_finite() { best } else { naive_score(&cells, &s, rng.below(l - m + 1)) } }
+            else { match rep % 3 { 0 => -1000.0, 1 => f32::NEG_INFINITY, _ => -(rng.below(40) as f32) } };
         let c = ScanCase { seq: to_text(&s), cells, thr, block: [1usize, 2, 7, 64, 256][rng.below(5)], consumed: rng.below(3) };
         if !f(&c) { return; }
     }
